@@ -4,6 +4,7 @@ import (
 	"context"
 	"errors"
 	"fmt"
+	"strings"
 	"sync"
 	"sync/atomic"
 	"testing"
@@ -118,14 +119,25 @@ func burst(w *world, c *kit.Case) {
 		}
 	}
 	mode := []string{"row", "notfound", "error", "mixed", "outage"}[r.Pick(8, 3, 3, 3, 1)]
+	// the store refuses every writing command while reads are served (a replica that became
+	// read-only, a full disk): nothing can be cached, yet every reader that shared the leader's
+	// query has to receive that query's result
+	if (mode == "row" || mode == "mixed") && r.Chance(0.3) {
+		mode += "-writes-fail"
+	}
 	nReaders := r.Range(2, 8)
 	nKeys := 1 + r.Pick(3, 1)
-	d := &burstDB{mode: mode, nf: h.st.notFound(), gauges: map[string]*kit.Gauge{}, gate: make(chan struct{}), failP: 0.5}
+	d := &burstDB{mode: strings.TrimSuffix(mode, "-writes-fail"), nf: h.st.notFound(), gauges: map[string]*kit.Gauge{}, gate: make(chan struct{}), failP: 0.5}
 	d.nfPK = h.db.pk
 	d.gated.Store(int64(r.Range(1, 2)))
 	if mode == "outage" {
 		for _, n := range h.nodes {
 			w.setOutage(n, outErrors)
+		}
+	}
+	if writesFail(mode) {
+		for _, n := range h.nodes {
+			w.setOutage(n, outWrites)
 		}
 	}
 	readers := make([]*rRec, nReaders)
@@ -212,13 +224,19 @@ func burst(w *world, c *kit.Case) {
 		<-done
 		return
 	}
-	if mode == "outage" {
+	if mode == "outage" || writesFail(mode) {
 		for _, n := range h.nodes {
-			w.setOutage(n, upKind)
+			if !w.setOutage(n, upKind) {
+				c.Inconclusive("store did not come back after the burst")
+				h.dead = true
+				return
+			}
 		}
 	}
 	checkBurst(h, d, c, mode, readers)
 }
+
+func writesFail(mode string) bool { return strings.HasSuffix(mode, "-writes-fail") }
 
 func burstRead(ctx context.Context, h *hist, d *burstDB, rr *rRec, slot int, coin func() float64, exp bool) (row, error) {
 	var v row
